@@ -4,6 +4,7 @@ mod corpus;
 mod ctx;
 mod fmt;
 mod gen;
+mod gen_luau;
 mod lex;
 mod libwork;
 mod mutate;
@@ -194,6 +195,115 @@ fn replay(args: &[String]) -> i32 {
     h.join().unwrap_or(3)
 }
 
+/// `sv min <replay.json>`: developer helper. Token-level delta debugging of a library-property
+/// witness: the smallest token subsequence on which the same property monitor still reports a
+/// finding of the same oracle. Prints the reduced source and its output.
+fn min_cmd(args: &[String]) -> i32 {
+    let path = match args.first() {
+        Some(p) => p,
+        None => return 3,
+    };
+    let v: Value = match std::fs::read_to_string(path).ok().and_then(|s| serde_json::from_str(&s).ok()) {
+        Some(v) => v,
+        None => return 3,
+    };
+    let prop = v["property"].as_str().unwrap_or("").to_string();
+    let oracle = v["oracle"].as_str().unwrap_or("").to_string();
+    let case = v["case"].clone();
+    if !LIB_PROPS.contains(&prop.as_str()) {
+        eprintln!("min: library properties only");
+        return 3;
+    }
+    fmt::install_quiet_panic_hook();
+    let h = std::thread::Builder::new()
+        .stack_size(1 << 30)
+        .spawn(move || {
+            let c = cfg::Cfg::from_json(&case["cfg"]).unwrap_or_default();
+            let range = ctx::range_from_json(&case["range"]);
+            let src = case["src"].as_str().unwrap_or("").to_string();
+            let mut fails = |t: &str| -> bool {
+                let mut ctx = Ctx::new(&prop, Tier::Quick, 0, None);
+                let ev = libwork::Eval { id: "min".to_string(), src: t.to_string(), cfg: c.clone(), range, pinned: true, presig: Some("min".to_string()) };
+                props::libprops::check(&mut ctx, &prop, &ev);
+                ctx.findings.iter().any(|f| f["oracle"].as_str() == Some(oracle.as_str()))
+            };
+            if !fails(&src) {
+                eprintln!("min: the case does not fail");
+                return 1;
+            }
+            let lx = match lex::lex(&src) {
+                Ok(l) => l,
+                Err(_) => return 3,
+            };
+            // units: tokens and comments, each with the kind of gap that follows it
+            let mut units: Vec<(String, bool)> = Vec::new();
+            for it in &lx.items {
+                match it {
+                    lex::Item::T(t) => units.push((src[t.start..t.end].to_string(), false)),
+                    lex::Item::V(tr) => {
+                        let text = &src[tr.start..tr.end];
+                        if tr.kind == lex::TrivKind::Ws {
+                            if text.contains('\n') {
+                                if let Some(u) = units.last_mut() {
+                                    u.1 = true;
+                                }
+                            }
+                        } else {
+                            units.push((text.to_string(), text.starts_with("--") && !text.starts_with("--[")));
+                        }
+                    }
+                }
+            }
+            let build = |us: &[(String, bool)]| -> String {
+                let mut o = String::new();
+                for (t, nl) in us {
+                    o.push_str(t);
+                    o.push(if *nl { '\n' } else { ' ' });
+                }
+                o
+            };
+            let mut n = 2usize;
+            while units.len() >= 2 {
+                let chunk = (units.len() / n).max(1);
+                let mut reduced = false;
+                let mut i = 0;
+                while i < units.len() {
+                    let mut cand = units[..i].to_vec();
+                    cand.extend_from_slice(&units[(i + chunk).min(units.len())..]);
+                    if !cand.is_empty() && fails(&build(&cand)) {
+                        units = cand;
+                        n = n.saturating_sub(1).max(2);
+                        reduced = true;
+                        break;
+                    }
+                    i += chunk;
+                }
+                if !reduced {
+                    if chunk == 1 {
+                        break;
+                    }
+                    n = (n * 2).min(units.len());
+                }
+            }
+            // newline flags off where possible
+            for k in 0..units.len() {
+                if units[k].1 {
+                    units[k].1 = false;
+                    if !fails(&build(&units)) {
+                        units[k].1 = true;
+                    }
+                }
+            }
+            let m = build(&units);
+            println!("cfg: {}", c.short());
+            println!("input:  {m:?}");
+            println!("output: {:?}", fmt::run(&m, &c, range, false, false).result);
+            0
+        })
+        .unwrap();
+    h.join().unwrap_or(3)
+}
+
 fn fmt_cmd(args: &[String]) -> i32 {
     // sv fmt <cfg-json> < input : prints formatted output (debug helper)
     let cfgv: Value = args.first().and_then(|s| serde_json::from_str(s).ok()).unwrap_or(json!({}));
@@ -345,9 +455,14 @@ fn gen_cmd(args: &[String]) -> i32 {
             Some(s) => cfg::SYNTAXES.iter().find(|x| x.eq_ignore_ascii_case(s)).copied().unwrap_or("All"),
             None => *r.pick(&cfg::SYNTAXES),
         };
-        let p = gen::program(&mut r, syntax);
+        let rich = syntax_arg.as_deref() == Some("luau-rich");
+        let syntax = if rich { "Luau" } else { syntax };
+        let p = if rich { gen_luau::program(&mut r, args.get(3).is_some()) } else { gen::program(&mut r, syntax) };
         let c = cfg::Cfg::with_syntax(syntax);
         let good = fmt::parses(&p, &c);
+        if !good && rich && n <= 200 {
+            println!("parse error: {:?}", fmt::parse_error(&p, &c));
+        }
         if good {
             ok += 1;
         }
@@ -364,6 +479,7 @@ fn main() {
     let code = match args.first().map(|s| s.as_str()) {
         Some("worker") => worker(&args[1..]),
         Some("replay") => replay(&args[1..]),
+        Some("min") => min_cmd(&args[1..]),
         Some("fmt") => fmt_cmd(&args[1..]),
         Some("gen") => gen_cmd(&args[1..]),
         Some("libfmt") => libfmt_cmd(),
